@@ -183,6 +183,9 @@ def run_property(prop_id, module, tier="quick", configs=None, replay=None):
             (f.rule, f.file, f.function, f.construct) not in known_now for r in ctx.rules for f in r.findings)
         final_rules = ctx.rules
         if suspicious and os.environ.get("VERIF_NO_NORMALIZE") != "1":
+            why = [("%s below its floor or undecided" % r.id) for r in ctx.rules if not raw_ok(r)] + \
+                  [("%s reported %d" % (r.id, len(r.findings))) for r in ctx.rules if r.findings] + ([err] if err else [])
+            print("  [%s] second opinion on the normal forms (%s)" % (cfg, "; ".join(why)[:300]))
             # second opinion on the behaviour-preserving normal form (helpers inlined, temporaries propagated):
             # report only what both views of the same program agree on
             from . import normalize as NZ
